@@ -118,6 +118,23 @@ def gen_cases(tier, seed):
                 if faults:
                     spec['plan']['faults'] = faults
                 cases.append(spec)
+    # a destination whose write() STALLS for a few seconds of real time (busy disk, NFS hiccup) while the other ranges keep arriving and
+    # every queue in front of it fills up: slow is not wrong - every byte still has to end up in the file.  (The one place in this check
+    # where real time matters: a give-up time beyond the stall is out of reach.)
+    for i in range(3 if quick else 12):
+        fe = rng.choice(['legacy', 'legacy', 'manager'])
+        T = C = 8
+        size = rng.choice([4 * C, 6 * C + 3])
+        stall = {'at': f't0/fs:write#{rng.choice([0, 1])}', 'phase': 'before', 'kind': 'stall', 'secs': 2.5 if quick else rng.choice([2.5, 6.0]), 'tag': 'STALL'}
+        if fe == 'legacy':
+            spec = {'front_end': 'legacy', 'seed': rng.randrange(1 << 30), 'family': 'stalling-destination',
+                    'config': dict(multipart_threshold=T, multipart_chunksize=C, max_concurrency=rng.choice([2, 3]), num_download_attempts=2, max_io_queue=rng.choice([1, 2])),
+                    'transfers': [{'kind': 'download', 'dst': 'path', 'size': size}], 'get_read_caps': [[2], [3]], 'plan': {'faults': [stall]}}
+        else:
+            spec = {'seed': rng.randrange(1 << 30), 'family': 'stalling-destination',
+                    'config': dict(multipart_threshold=T, multipart_chunksize=C, io_chunksize=2, max_request_concurrency=rng.choice([2, 3]), max_io_queue_size=rng.choice([1, 2])),
+                    'transfers': [{'kind': 'download', 'dst': 'path', 'size': size}], 'plan': {'faults': [stall]}}
+        cases.append(spec)
     # one legacy S3Transfer object used from several threads: 2-3 download_file calls overlapping in time (requests held at a gate
     # until every call is in flight)
     for i in range(30 if quick else 300):
